@@ -32,7 +32,8 @@ type c18Tracer struct {
 	rec   map[any]int
 	kinds []string // per recoverer: "once" (StateMachine / own running flag) | "latched" (result store) | "v2" (RecoverableService)
 	gor   map[uint64]int
-	last  map[int]int // goroutine -> position of its latest event
+	last  map[int]int              // goroutine -> position of its latest event
+	gates map[string]chan struct{} // armed gates: a goroutine reaching the point waits (after its event is logged) until the gate opens
 }
 
 func c18Goid() uint64 {
@@ -100,11 +101,26 @@ func (tr *c18Tracer) hook(point string, args ...any) {
 		}
 	}
 	tr.ev = append(tr.ev, e)
+	if g := tr.gates[point]; g != nil {
+		tr.mu.Unlock()
+		<-g // held: the schedule the case asks for (the channel belongs to the case's bubble: a durable block)
+		tr.mu.Lock()
+	}
 }
 
 func init() {
 	c18TraceBegin = func() func() ([]c18Ev, []string) {
-		tr := &c18Tracer{rec: map[any]int{}, gor: map[uint64]int{}, last: map[int]int{}}
+		tr := &c18Tracer{rec: map[any]int{}, gor: map[uint64]int{}, last: map[int]int{}, gates: map[string]chan struct{}{}}
+		c18GateCtl = func(point string, arm bool) {
+			tr.mu.Lock()
+			defer tr.mu.Unlock()
+			if arm {
+				tr.gates[point] = make(chan struct{})
+			} else if g := tr.gates[point]; g != nil {
+				close(g)
+				delete(tr.gates, point)
+			}
+		}
 		service.SetVerifHook(tr.hook)
 		polling.SetRecoverableServiceVerifHook(tr.hook)
 		return func() ([]c18Ev, []string) {
